@@ -112,10 +112,11 @@ Proof. exact no_in_place_write_src. Qed.
 Print Assumptions C10_no_in_place_write.
 
 (* the source orders the proof relies on: temp+rename index write, index before unlink,
-   blob stored before it is tagged, ingest = create temp / copy+verify / chmod, then rename *)
+   blob stored before it is tagged, ingest = create temp / copy+verify / chmod, then rename,
+   GC = rebuild, save index, then sweep *)
 Theorem C10_source_order :
-  src_inplace = false /\ src_unlink_first = false /\ src_push_order_ok = true.
-Proof. exact (conj src_inplace_false (conj src_unlink_first_false src_push_order)). Qed.
+  src_inplace = false /\ src_unlink_first = false /\ src_push_order_ok = true /\ src_gc_order_ok = true.
+Proof. exact (conj src_inplace_false (conj src_unlink_first_false (conj src_push_order src_gc_order))). Qed.
 Print Assumptions C10_source_order.
 
 (* The code before the repair (os.WriteFile on index.json itself, [inplace = true]):
